@@ -56,6 +56,29 @@ def width(p, cfg):
   return 1
 
 
+def sibling_space(rng, space, f32=False):
+  """Same names and parameter types, different feasible sets (one category / value / integer more or less)."""
+  out = []
+  for p in space:
+    q = dict(p)
+    if p['t'] == 'C' and not p.get('bool'):
+      cats = list(p['cats'])
+      extra = [x for x in cd.CAT_POOL if x not in cats]
+      if len(cats) > 1 and (not extra or rng.random() < 0.4):
+        cats.remove(rng.choice(cats))
+      elif extra:
+        cats = sorted(cats + [rng.choice(extra)])
+      q['cats'] = cats
+    elif p['t'] == 'I' and p['sc'] in (None, 'LIN') and abs(p['hi']) < 10 ** 5:
+      q['hi'] = p['hi'] + rng.choice([1, 2])
+    elif p['t'] == 'D' and p['sc'] in (None, 'LIN') and abs(p['hi']) < 1e6 and abs(p['lo']) < 1e6:
+      q['hi'] = float(p['hi'] + (p['hi'] - p['lo']) + 1.0)
+      if f32:
+        q['hi'] = float(np.float32(q['hi']))
+    out.append(q)
+  return out
+
+
 # ------------------------------------------------------------------ points and arrays
 def gen_points(rng, space, n):
   """feasible points: boundaries, midpoints, every feasible value of small domains, random."""
@@ -407,6 +430,12 @@ def codec_stage(c, clip_scaled=None):
       elif path == 'modelinput':
         pcfg['onehot'], pcfg['clip'], pcfg['pad'] = False, True, True
       cases.append((space, pcfg, path, c.rng.choice(['NONE', 'MULTIPLES_OF_10', 'POWERS_OF_2'])))
+      if path in ('array', 'padded') and c.rng.random() < 0.6:
+        # a SIBLING study in the same process (a tuning job with two studies, a benchmark sweeping search spaces):
+        # same parameter names and types, other feasible sets and padding — every converter instance must behave
+        # as if it were alone (nothing learnt from one search space may be applied to another)
+        cases.append((sibling_space(c.rng, space, cfg['f32'] or uses_jax32), dict(pcfg, pad=not pcfg['pad']) if c.rng.random() < 0.5 else dict(pcfg),
+                      path, c.rng.choice(['NONE', 'MULTIPLES_OF_10', 'POWERS_OF_2'])))
 
   reqs, metas = [], []
   for space, cfg, path, padk in cases:
